@@ -270,6 +270,10 @@ def main(prop, argv=None):
         scen, v = min(items, key=lambda sv: prop.size(sv[0]))
         small, sv = shrink(prop, scen, v, budget_s=shrink_budget / max(1, min(len(classes), 4)))
         r = prop.execute(small)
+        if os.environ.get("VERIF_DEBUG"):
+            r2 = prop.execute(small)
+            print("DEBUG parent execute:", r.get("digest"), bool(r.get("violation")), "again:",
+                  r2.get("digest"), bool(r2.get("violation")), json.dumps(r.get("trace"))[:600])
         sig = prop.signature(small, r.get("violation") or sv)
         h = hashlib.sha256(json.dumps(small, sort_keys=True).encode()).hexdigest()[:10]
         path = os.path.join(REPLAY_DIR, f"{prop.ID}-{seed}-{h}.json")
